@@ -12,7 +12,7 @@ import re
 
 class FSpec:
     def __init__(self, cname, ret_c, params, pre=(), post=(), exc_post=(), frame=(), frame_objs=(),
-                 may_throw=(), olds=(), real="", doc="", allocs_ret=None, stub_extra=""):
+                 may_throw=(), olds=(), real="", doc="", allocs_ret=None, stub_extra="", frame_fresh=(), frame_fresh_mat=()):
         self.cname = cname
         self.ret_c = ret_c
         self.params = list(params)          # [(ctype, name)]
@@ -27,13 +27,16 @@ class FSpec:
         self.doc = doc
         self.allocs_ret = allocs_ret
         self.stub_extra = stub_extra        # extra C in the stub before the post assumes (e.g. allocation of results)
+        self.frame_fresh = list(frame_fresh)          # [(pointer lvalue, elem ctype)]: may be re-pointed to a fresh array
+        self.frame_fresh_mat = list(frame_fresh_mat)  # Mat lvalues that may be replaced by a fresh matrix
 
     # ------------------------------------------------------------------ dfcc frame contract
     def frame_contract(self, extra_requires=()):
         c = []
         for _, e in list(self.pre) + [("", r) for r in extra_requires]:
             c.append("__CPROVER_requires(%s)" % e)
-        tg = list(self.frame) + ["__CPROVER_object_whole(%s)" % p for p in self.frame_objs]
+        tg = list(self.frame) + [lv for lv, _ in self.frame_fresh] + list(self.frame_fresh_mat) + \
+            ["__CPROVER_object_whole(%s)" % p for p in self.frame_objs]
         if self.may_throw:
             tg.append("verif_exc")
         c.append("__CPROVER_assigns(%s)" % ", ".join(tg))
@@ -54,6 +57,10 @@ class FSpec:
             L.append("  { __typeof__(%s) verif_nd; %s = verif_nd; }" % (lv, lv))
         for p in self.frame_objs:
             L.append("  __CPROVER_havoc_object(%s);" % p)
+        for lv, ty in self.frame_fresh:
+            L.append("  { Index verif_n = nondet_Index(); __CPROVER_assume(0 <= verif_n && verif_n <= NMAX); %s = malloc(verif_n * sizeof(%s)); __CPROVER_assume(%s != NULL); }" % (lv, ty, lv))
+        for lv in self.frame_fresh_mat:
+            L.append("  { Index verif_r = nondet_Index(), verif_c = nondet_Index(); __CPROVER_assume(0 <= verif_r && verif_r <= NMAX && 0 <= verif_c && verif_c <= NMAX); %s = MAT_NEW(verif_r, verif_c); }" % lv)
         if self.ret_c != "void":
             L.append("  %s ret;" % self.ret_c)
         if self.stub_extra:
